@@ -29,6 +29,10 @@ claimed = {
    text='Seeded streams assembled from statement templates whose token structure and statement boundaries are known by construction, delivered through a simulated byte source (bufio over 1..7-byte fragments with zero-byte reads, a one-line-per-call line source, whole buffer in one read) with injected faults (EOF at an arbitrary byte biased into strings/comments/open brackets, non-EOF read error at an arbitrary byte followed or not by more data, missing final newline, CRLF, #! first line). Oracles: chunks concatenate to exactly the bytes delivered (with #! -> //), every chunk ends at a constructed statement boundary (never inside a token or open bracket, never cutting a continued statement), every chunk parses on its own, the chunking is identical under every delivery schedule, and the EOF error kind tells whether brackets were open.',
    note='Templates are a fixed alphabet (71 statement shapes); standard-library files are not used. A line source returning several lines per call is outside the Readline contract both real implementations follow and is not simulated. After an injected non-EOF error nothing is required of the rest of the stream.',
    technique='deterministic simulation: simulated byte/line source with seeded fragmentation and injected EOF/read errors + boundaries known by construction'),
+ 'C27': dict(level='exploration', design='3.11',
+   text='Partial: decides clause 1 (positions across chunks). Seeded multi-chunk sources (declarations with continuation lines, multi-line raw strings, groups, separated by seeded runs of blank lines and comments) carry one marker at a constructed line:column - undefined identifier (compile error), invalid token (parse error), or a "break" statement reached under the real debugger (stop position). They are evaluated through EvalReader over a fragmenting byte source, EvalFile on a real file, and the REPL loop over a line source; the file:line:col in the captured report must equal the constructed position under every delivery and any number of preceding chunks.',
+   note='Clause 2 (file-set arithmetic with a starting line offset) is a pure function and NOT decided here; panic locations are not reported with positions by the interpreter at all. Only error kinds whose offending token is unambiguous are used.',
+   technique='deterministic simulation: simulated byte/line source driving EvalReader/EvalFile/REPL + positions known by construction'),
  'C33': dict(level='exploration', design='3.2',
    text='Seeded search over interleavings of the goroutine-registry protocol: short-lived goroutines enter interpreted code through go statements (named function, literal) and through compiled code calling interpreted closures, with yield points at every registry step (lookup, create, store, delete) and every statement; the identity source is either the real one (checked for constancy/uniqueness against runtime goroutine numbers) or a simulated pool of 3 identities with immediate reuse after exit. An ownership monitor at every frame allocation/release asserts that the runtime record and frames in use belong to the current live task only; results are compared with the native twin; ThreadSanitizer runs with the scheduler handshakes hidden.',
    note='Trusted: testing/synctest quiescence, runtime goroutine numbers (runtime.Stack) as ground truth for identity, ThreadSanitizer. The assembly GoID is observed, not explored. At most 3 live goroutines and 12 per run.',
